@@ -727,7 +727,7 @@ Section Closed.
         - rewrite Hld in Hc. exact Hc. }
       rewrite Hdeps. cbn [negb]. rewrite (I_nofail _ _ _ _ _ _ _ _ _ HI i). rewrite existsb_mem_nil. cbn [andb].
       assert (Hlk : locked key st (t_label t) = false).
-      { unfold locked. destruct (existsb _ (seq 0 (st_n key st))) eqn:E; [|reflexivity].
+      { unfold locked. apply not_true_is_false. intros E.
         apply existsb_exists in E. destruct E as (j & _ & Hh). unfold holds in Hh. rewrite Hnocur in Hh. discriminate. }
       rewrite Hlk. destruct (needs_build key key_eqb H (st_store key st) t); discriminate.
   Qed.
@@ -872,3 +872,11 @@ Local Close Scope string_scope.
 
 Lemma lock_protocol_ok : protocol_ok = true.
 Proof. vm_compute. reflexivity. Qed.
+
+Lemma ex_deps_closed : forall ts, In ts [ex_repo; ex_repo] -> deps_closed ts.
+Proof.
+  intros ts Hts t d Hin Hd. assert (ts = ex_repo) by (destruct Hts as [<-|[<-|[]]]; reflexivity). subst ts.
+  destruct Hin as [<-|[<-|[]]]; cbn in Hd.
+  - destruct Hd.
+  - destruct Hd as [<-|[]]. exists ex_a. split; [left; reflexivity|reflexivity].
+Qed.
